@@ -124,7 +124,8 @@ pub fn run(rng: &mut Rng, tier: &str, out: &str) -> Report {
     let mut rep = Report::new("hist");
     let mut cw = CaseWriter::new(out, "hist", HEADER, 1);
     let thorough = tier == "thorough";
-    let n_univ = if thorough { 400 } else { 48 };
+    let n_model = if thorough { 400 } else { 48 };
+    let n_univ = if thorough { 4000 } else { 600 };
     for ui in 0..n_univ {
         // every third universe uses the conflict-focused profile
         let cfg = GenCfg { focus: ui % 3 == 2, ..GenCfg::default() };
@@ -367,10 +368,16 @@ pub fn run(rng: &mut Rng, tier: &str, out: &str) -> Report {
         if ui < 2 {
             rep.sample(json!({"replicas": nrep, "changes": n, "ops": total_ops, "log": u.log.iter().take(25).collect::<Vec<_>>()}));
         }
-        cw.push_group(&group_defs, group_cases);
-        // historical reads use the checker [wf_hist_b] that lives beside the C07 proofs
-        let hist_defs = vec!["From AM Require Import Crdt.ClockProofs.".to_string(), group_defs[0].clone()];
-        cw.push_group(&hist_defs, hist_cases);
+        // the first n_model universes are also evaluated in the Coq model; the others are searched
+        // directly on the implementation only (cheap), which multiplies the schedules explored
+        if ui < n_model {
+            cw.push_group(&group_defs, group_cases);
+            // historical reads use the checker [wf_hist_b] that lives beside the C07 proofs
+            let hist_defs = vec!["From AM Require Import Crdt.ClockProofs.".to_string(), group_defs[0].clone()];
+            cw.push_group(&hist_defs, hist_cases);
+        } else {
+            rep.count("direct_only_universes");
+        }
         group_defs.clear();
     }
     rep.model_cases = cw.total as u64;
